@@ -25,7 +25,7 @@ def _sg64(v):
     return ceval._sg(v, 64)
 
 
-def check(ctx, m, cfg, props_sel, rule="R-CFORM"):
+def check(ctx, m, cfg, props_sel, rule="R-CFORM", funcs=None):
     insts = [
         ("getNumCells", ["C03"], _getNumCells), ("cellToChildrenSize", ["C04", "C13", "C06"], _cellToChildrenSize),
         ("gridPathCellsSize", ["C14"], _gridPathCellsSize), ("maxFaceCount", ["C19"], _maxFaceCount),
@@ -34,7 +34,7 @@ def check(ctx, m, cfg, props_sel, rule="R-CFORM"):
     ]
     n = 0
     for name, props, fn in insts:
-        if props_sel is not None and not (set(props) & set(props_sel)):
+        if props_sel is not None and not (set(props) & set(props_sel)) and not (funcs and name in funcs):
             continue
         n += 1
         try:
